@@ -11,7 +11,9 @@ META = {
                  "with memory orderings extracted from the running code; atomic-level and API-level trace "
                  "validation of real executions enumerated by a deterministic scheduler",
     "text": "(zero-copy channel: schedules of a sender thread (try_send, reclaim) and a receiver thread (receive, release) on "
-            "the real zero_copy_connection, process-local and POSIX shm, validated by TLC against ChannelLin.tla: "
+            "the real zero_copy_connection, process-local and POSIX shm, validated by TLC against ChannelLin.tla "
+            "(and random sequential histories over 1..6 channels x 1..3 segments incl. acquire_used_offsets after the receiver is "
+            "gone, against ConnChannels.tla): "
             "Conservation, NoDuplication, Bounded, and no failing release.) TLC exhaustively checks SpscImpl.tla (one action per shared-memory access, operational release/"
             "acquire memory model C11Mem.tla) for conservation, FIFO order, no invention/duplication, bounded "
             "cursors and data-race freedom, with the orderings read back from the current build; every "
@@ -223,6 +225,32 @@ def zero_copy_channel(ctx):
                                         replay={"summary": summ}, signature="anomaly:channel"))
             bv.add(out, (f"channel {st} buf={buf} maxbor={mb} overflow={ovf} {prog} [{mode}]", summ), summ["executions"])
     bv.run()
+    # ---- several channels x several segments, sequential random histories (ConnChannels.tla): per-channel borrow limit,
+    # release never fails (the sender reclaims before every push, as every port does), and after the receiver is gone
+    # acquire_used_offsets hands back exactly the items that are still out, with the right segment
+    def on_reject_m(meta, v, run, rel):
+        what, summ = meta if meta else ("?", {})
+        ctx.report(vp.Violation(
+            f"{what}: history of the real zero-copy connection with several channels / segments is not explainable by "
+            f"ConnChannels (offset lost, duplicated or invented, wrong segment, borrow limit not per channel, or a release "
+            f"failed for lack of space) at record #{rel}: {v.record} (configuration {run[0] if run else None})",
+            replay={"what": what, "summary": summ, "run": run[:rel + 1], "first_unexplained": v.record, "invariant": v.invariant},
+            signature="lin:connchannels"))
+    bvm = vp.BatchValidator(ctx, "lockfree", "ConnChannelsTrace", on_reject_m, name="connchannels")
+    for st in ("local", "shm"):
+        out = ctx.path("traces", f"zccm-{st}.ndjson")
+        _, so, _ = vp.run_driver("drv-event", ["zccm", "--storage", st, "--runs", 120 if quick else 1500, "--steps", 70, "--out", out],
+                                 timeout=1800, env={"VERIF_SEED": ctx.seed})
+        summ = vp.last_json_line(so)
+        ctx.evaluations += summ["executions"]
+        c = summ["counts"]
+        need = ["send:ok", "send:evicted", "send:full", "recv:some", "recv:maxborrow", "rel:ok", "reclaim:some", "acquire_used:ok"]
+        if any(not c.get(k) for k in need):
+            raise vp.ToolError(f"vacuous multi-channel run ({st}): {c}")
+        if summ["panics"]:
+            ctx.note(f"multi-channel run ({st}): {summ['panics']} panics of the code under test (recorded)")
+        bvm.add(out, (f"multi-channel connection {st}", summ), summ["executions"])
+    bvm.run()
 
 
 def run(ctx):
